@@ -25,21 +25,38 @@ def oid_list(name):
     return [OIDS[n] for n in OID_LISTS[name]]
 
 
+def oid_n(n):
+    """An OID of n one-octet arcs (encoded content is n-1 octets)."""
+    return (1, 3) + (1,) * (n - 2)
+
+
 def oversize_list():
     return [OIDS["long"]] * 40  # ~40*190 octets > any plausible buffer
 
 
 class Sess:
-    def __init__(self, cfg):
+    def __init__(self, cfg, force_salt=None):
         mod, fast = drivers.subject()
         self.cfg = cfg
-        self.w = drivers.SplitWorld(cfg)
+        self.force_salt = force_salt
+        force = getattr(fast, "_verif_rng_force", None)
+        if force_salt is not None and force is not None and cfg.version == "v3" and cfg.priv and not cfg.discover:
+            force([force_salt])
+        try:
+            self.w = drivers.SplitWorld(cfg)
+        finally:
+            if force is not None:
+                force([])
         self.model = SessionModel(cfg)
         self.last_req = None
         self.last_call = None
         self.last_op = None
         self.last_iter = None
         self.reply_no = 0
+        self.installation = 0
+        if cfg.version == "v3" and cfg.discover:
+            self.model.no_keys_yet = True
+            self.model.user = b""
 
     def close(self):
         self.w.close()
@@ -48,14 +65,15 @@ class Sess:
 class Runner:
     """Executes a history; collects problems [(clause, text, step_index)]."""
 
-    def __init__(self, cfgs, clauses):
-        self.sessions = [Sess(c) for c in cfgs]
+    def __init__(self, cfgs, clauses, force_salt=None):
+        self.sessions = [Sess(c, force_salt) for c in cfgs]
         self.clauses = clauses
         self.problems = []
         self.datagrams = 0
         self.api_calls = 0
         self.step_no = 0
         self.sizes = []
+        self.trace = []  # one dict per emitted datagram
 
     def close(self):
         for s in self.sessions:
@@ -77,13 +95,35 @@ class Runner:
         kind = act[0]
         s = self.sessions[act[1]]
         w = s.w
-        if kind in ("get", "get_many", "getnext", "getbulk", "refresh", "oversize"):
+        if kind == "discover":
+            return self.discover(s, act[2] if len(act) > 2 else 0)
+        if kind == "set_keys":
+            eid, user, a_alg, a_key, p_alg, p_key = s.cfg.raw_args(s.model.engine_id or s.cfg.engine_id)
+            force = getattr(fast, "_verif_rng_force", None)
+            if s.force_salt is not None and force is not None and s.cfg.priv:
+                force([s.force_salt])
+            out = drivers.call(w.sock.set_keys, user, a_alg, a_key, p_alg, p_key)
+            if force is not None:
+                force([])
+            self.api_calls += 1
+            if out.kind != "ok":
+                self.bad("wire", "set_keys failed: %r" % (out.brief(),))
+            s.installation += 1
+            return
+        if kind in ("get", "get_many", "getnext", "getbulk", "refresh", "oversize", "get_n", "get_many_kn"):
             if kind == "refresh" and s.cfg.version != "v3":
                 return
             call, it = None, None
             if kind == "get":
                 call = Call("get", [OIDS[act[2]]])
                 out = w.send("get", rb.oid_str(OIDS[act[2]]))
+            elif kind == "get_n":
+                call = Call("get", [oid_n(act[2])])
+                out = w.send("get", rb.oid_str(oid_n(act[2])))
+            elif kind == "get_many_kn":
+                oids = [oid_n(128)] * act[2] + [oid_n(act[3])]
+                call = Call("get_many", oids)
+                out = w.send("get_many", [rb.oid_str(o) for o in oids])
             elif kind == "get_many":
                 oids = oid_list(act[2])
                 call = Call("get_many", oids)
@@ -122,9 +162,20 @@ class Runner:
             req, probs = check_request(s.cfg, call, data, s.model if s.cfg.version == "v3" else None, self.clauses)
             for c, t in probs:
                 self.problems.append((c, t + " [%s on %s, %d octets]" % (kind, s.cfg.name, len(data)), self.step_no))
+            self.trace.append(
+                {
+                    "s": act[1],
+                    "inst": s.installation,
+                    "size": len(data),
+                    "salt": req.priv_params if req is not None and req.version == 3 else None,
+                    "boots": s.model.boots,
+                    "flags": req.flags if req is not None else None,
+                    "kind": kind,
+                }
+            )
             if w.take_request(wait=0) is not None:
                 self.bad("wire", "more than one datagram emitted for one call")
-            if req is not None and req.pdu_tag is not None:
+            if req is not None and req.pdu_tag is not None and req.request_id is not None and req.oids is not None and None not in (req.a, req.b):
                 s.last_req, s.last_call, s.last_op, s.last_iter = req, call, kind, it
             else:
                 s.last_req = None
@@ -133,7 +184,15 @@ class Runner:
             if s.last_req is None:
                 return
             req = s.last_req
-            op = {"refresh": "refresh", "get": "get", "get_many": "get_many", "getnext": "getnext", "getbulk": "getbulk"}[s.last_op]
+            op = {
+                "refresh": "refresh",
+                "get": "get",
+                "get_n": "get",
+                "get_many": "get_many",
+                "get_many_kn": "get_many",
+                "getnext": "getnext",
+                "getbulk": "getbulk",
+            }[s.last_op]
             how = act[2]
             s.reply_no += 1
             if how == "garbage":
@@ -142,13 +201,35 @@ class Runner:
                 self.api_calls += 1
                 return
             boots, time = req.boots, req.time
+            payload = b""
             if s.cfg.version == "v3" and how in ("ok", "report"):
                 boots, time = _clock(s.reply_no, act[3] if len(act) > 3 else 0)
+            if how in ("report-foreign", "ok-foreign"):
+                # correct msgID / user / request-id, but from another authoritative engine
+                if s.cfg.version != "v3":
+                    return
+                eid = s.model.engine_id or s.cfg.engine_id
+                foreign = eid[:-1] + bytes([eid[-1] ^ 0x55])
+                oid = (1, 3, 6, 1, 6, 3, 15, 1, 1, 4, 0)
+                tag = rb.PDU_REPORT if how == "report-foreign" else rb.PDU_RESPONSE
+                rep = drivers.reply_for(
+                    s.cfg, req, [(oid, values.v_unsigned("counter32", 4).tlv)], pdu_tag=tag, engine_id=foreign, boots=77, time=7777, flags=0
+                )
+                w.inject(rep)
+                out = w.recv(op, s.last_iter)
+                self.api_calls += 1
+                if not (out.kind == "exc" and isinstance(out.exc, BlockingIOError)):
+                    self.bad("usm", "message from a foreign engine id was not skipped: %r" % (out.brief(),))
+                return
             if how == "report":
                 if s.cfg.version != "v3":
                     return
                 vb = [((1, 3, 6, 1, 6, 3, 15, 1, 1, 2, 0), values.v_unsigned("counter32", 9).tlv)]
                 rep = drivers.reply_for(s.cfg, req, vb, pdu_tag=rb.PDU_REPORT, boots=boots, time=time, flags=0)
+            elif how == "octets":
+                oid = req.oids[0] + (1,) if req.oids else (1, 3, 6, 1, 2, 1, 1, 1, 0)
+                payload = bytes((i * 7 + 3) & 0xFF for i in range(act[3]))
+                rep = drivers.reply_for(s.cfg, req, [(oid, rb.enc_octets(payload))])
             else:
                 oid = req.oids[0] + (1,) if req.oids else (1, 3, 6, 1, 2, 1, 1, 1, 0)
                 rep = drivers.reply_for(s.cfg, req, [(oid, rb.enc_int(s.reply_no))], boots=boots, time=time)
@@ -157,7 +238,11 @@ class Runner:
             self.api_calls += 1
             accepted = out.kind == "ok" or isinstance(out.exc, (fast.SnmpAuthError, StopAsyncIteration))
             if out.kind == "exc" and not accepted:
-                self.bad("wire", "valid reply not accepted: %r" % (out.brief(),))
+                self.bad("reply", "valid reply not accepted: %r" % (out.brief(),))
+            if how == "ok" and op == "get" and out.kind == "ok" and out.value != s.reply_no:
+                self.bad("reply", "reply carried INTEGER %d, caller got %r" % (s.reply_no, out.value))
+            if how == "octets" and op == "get" and out.kind == "ok" and out.value != payload:
+                self.bad("reply", "reply carried %d octets, caller got %r" % (len(payload), out.value if not isinstance(out.value, bytes) else "different bytes (%d)" % len(out.value)))
             if accepted and s.cfg.version == "v3":
                 s.model.accept(req.engine_id or s.cfg.engine_id, boots, time)
             return
@@ -165,6 +250,80 @@ class Runner:
             w.flush_client_queue()
             return
         raise ValueError(act)
+
+
+def _discover(self, s, variant):
+    """Engine-id discovery + key installation + time sync, as the public clients drive it."""
+    mod, fast = drivers.subject()
+    w, cfg = s.w, s.cfg
+    anon = Cfg("v3", user="", engine_id=cfg.engine_id)
+    # 1. probe without engine id
+    out = w.send("refresh")
+    self.api_calls += 1
+    if out.kind != "ok":
+        return self.bad("wire", "discovery probe failed: %r" % (out.brief(),))
+    data = w.take_request()
+    if data is None:
+        return self.bad("wire", "discovery probe not sent")
+    self.datagrams += 1
+    req, probs = check_request(anon, Call("refresh", []), data, s.model, self.clauses)
+    for c, t in probs:
+        self.problems.append((c, t + " [discovery probe]", self.step_no))
+    if req is None or req.request_id is None:
+        return
+    b0, t0 = _clock(1, variant)
+    vb = [((1, 3, 6, 1, 6, 3, 15, 1, 1, 4, 0), values.v_unsigned("counter32", 1).tlv)]
+    rep = drivers.reply_for(anon, req, vb, pdu_tag=rb.PDU_REPORT, engine_id=cfg.engine_id, boots=b0, time=t0, flags=0, user="")
+    w.inject(rep)
+    out = w.recv("refresh")
+    self.api_calls += 1
+    if out.kind != "ok":
+        return self.bad("usm", "discovery Report not accepted: %r" % (out.brief(),))
+    s.model.accept(cfg.engine_id, b0, t0)
+    # 2. install the real user and keys
+    eid, user, a_alg, a_key, p_alg, p_key = cfg.raw_args(cfg.engine_id)
+    force = getattr(fast, "_verif_rng_force", None)
+    if s.force_salt is not None and force is not None and cfg.priv:
+        force([s.force_salt])
+    out = drivers.call(w.sock.set_keys, user, a_alg, a_key, p_alg, p_key)
+    if force is not None:
+        force([])
+    self.api_calls += 1
+    if out.kind != "ok":
+        return self.bad("usm", "set_keys failed: %r" % (out.brief(),))
+    s.model.no_keys_yet = False
+    del s.model.user
+    s.installation += 1
+    got = drivers.call(w.sock.get_engine_id)
+    if got.kind != "ok" or got.value != cfg.engine_id:
+        self.bad("usm", "get_engine_id() returned %r after discovery, agent is %s" % (got.brief(), cfg.engine_id.hex()))
+    # 3. time synchronisation probe with the real keys
+    out = w.send("refresh")
+    self.api_calls += 1
+    if out.kind != "ok":
+        return self.bad("wire", "time-sync probe failed: %r" % (out.brief(),))
+    data = w.take_request()
+    if data is None:
+        return self.bad("wire", "time-sync probe not sent")
+    self.datagrams += 1
+    req, probs = check_request(cfg, Call("refresh", []), data, s.model, self.clauses)
+    for c, t in probs:
+        self.problems.append((c, t + " [time-sync probe after discovery on %s]" % cfg.name, self.step_no))
+    self.trace.append({"s": self.sessions.index(s), "inst": s.installation, "size": len(data), "salt": req.priv_params if req else None, "boots": s.model.boots, "flags": req.flags if req else None, "kind": "refresh"})
+    if req is None or req.request_id is None:
+        return
+    b1, t1 = _clock(2, variant + 1)
+    vb = [((1, 3, 6, 1, 6, 3, 15, 1, 1, 2, 0), values.v_unsigned("counter32", 2).tlv)]
+    rep = drivers.reply_for(cfg, req, vb, pdu_tag=rb.PDU_REPORT, boots=b1, time=t1, flags=1 if cfg.auth else 0)
+    w.inject(rep)
+    out = w.recv("refresh")
+    self.api_calls += 1
+    if out.kind != "ok":
+        return self.bad("usm", "time-sync Report not accepted: %r" % (out.brief(),))
+    s.model.accept(cfg.engine_id, b1, t1)
+
+
+Runner.discover = _discover
 
 
 def _clock(n, variant):
@@ -179,9 +338,9 @@ def _clock(n, variant):
     return table[variant % len(table)]
 
 
-def run_history(cfg_descs, history, clauses):
+def run_history(cfg_descs, history, clauses, force_salt=None):
     cfgs = [Cfg.from_desc(d) for d in cfg_descs]
-    r = Runner(cfgs, clauses)
+    r = Runner(cfgs, clauses, force_salt)
     try:
         probs = r.run(history)
         return probs, r
